@@ -29,6 +29,7 @@ type Knobs struct {
 	WScope, WProvide, WDecorate, WInvoke, WVisualize, WString int
 	// weights of deliberately rejected / hostile operations (C06, C14)
 	WBadProvide, WBadDecorate, WBadInvoke, WCycleCloser, WDupDecorate int
+	WShadowCycle                                                      int
 	// PFocus: after a deliberately rejected registration, probability that
 	// the next operations re-use its keys
 	PFocus int
@@ -1107,6 +1108,16 @@ func GenCase(t *rapid.T, k Knobs) *Case {
 				g.focusOn(op)
 			} else {
 				add(g.genProvide(g.pickScope("ps3")))
+			}
+		}},
+		{k.WShadowCycle, func() {
+			if sops, ok := g.genShadowCycle(); ok {
+				for _, op := range sops[:len(sops)-1] {
+					add(op)
+				}
+				g.focusOn(sops[len(sops)-1])
+			} else {
+				add(g.genProvide(g.pickScope("ps5")))
 			}
 		}},
 		{k.WDupDecorate, func() {
